@@ -34,13 +34,29 @@ def rewrap(f):
     return inner
 
 
-WRAPPERS = {'none': None, 'identity': ident, 'closure': rewrap}
+def numeric_only(f):
+    """Stand-in for a JIT decorator such as numba.njit: semantics preserving, but it only accepts numbers."""
+    import numbers
+
+    def inner(*args):
+        for a in args:
+            for v in a:
+                if not isinstance(v, numbers.Number) and not hasattr(v, 'dtype'):
+                    raise TypeError(f'numeric-only wrapper called with a {type(v).__name__}')
+        return f(*args)
+    return inner
+
+
+WRAPPERS = {'none': None, 'identity': ident, 'closure': rewrap, 'numeric': numeric_only}
 
 
 def option_settings():
     out = []
     for cse, graded, symcls, wr in product((True, False), (False, True), ('default', 'sympy'), ('none', 'identity', 'closure')):
         out.append(dict(cse=cse, graded=graded, symcls=symcls, wrapper=wr, pretty='𝐞' if wr != 'closure' else 'E'))
+    # a wrapper that only accepts numbers (like a JIT compiler), with both symbol classes
+    for symcls in ('default', 'sympy'):
+        out.append(dict(cse=True, graded=False, symcls=symcls, wrapper='numeric', pretty='𝐞'))
     return out
 
 
